@@ -5,6 +5,7 @@ import Depccg.Wire
 import Depccg.Ja
 import Depccg.OpsSearch
 import Depccg.OpsGlue
+import Depccg.OpsTree
 
 namespace Depccg
 namespace Ops
@@ -144,6 +145,7 @@ def dispatch (st : State) (line : String) : State × String :=
     if op == "search" then (st, OpsSearch.searchOp ts) else
     if op == "beam" then (st, OpsSearch.beamOp ts) else
     if let some r := OpsGlue.dispatch op ts then (st, r) else
+    if let some r := OpsTree.dispatch op ts then (st, r) else
     match catOps op ts with
     | some r => (st, r)
     | none =>
